@@ -68,6 +68,9 @@ func (c *Ctx) doCallCommon(st *State, fr *Frame, ins ssa.Instruction, call *ssa.
 	if fr.depth == 0 && ins != nil {
 		if si, ok := c.sitesOf(ins.Parent())[ins]; ok && strings.HasPrefix(si.class, "call ") {
 			st.callArgs[fmt.Sprintf("%s#%d", strings.TrimPrefix(si.class, "call "), si.ord)] = args
+			if call.IsInvoke() && fnVal != nil {
+				st.callArgs[fmt.Sprintf("recv:%s#%d", strings.TrimPrefix(si.class, "call "), si.ord)] = []Value{fnVal}
+			}
 		}
 	}
 	sig := call.Signature()
@@ -728,7 +731,15 @@ func (c *Ctx) doBuiltin(st *State, fr *Frame, ins ssa.Instruction, b *ssa.Builti
 		case *types.Slice:
 			return set(T(SInt, "(sl_len %s)", a.S))
 		case *types.Map:
-			return set(c.mapLen(st, a, false))
+			ml := c.mapLen(st, a, false)
+			if len(st.qbinders) == 0 {
+				// a map of length zero has no keys
+				mt := call.Args[0].Type().Underlying().(*types.Map)
+				dfam, dsort := c.famMapDom(mt)
+				q := c.Reg.Fresh("q")
+				st.Assume(T(SBool, "(=> (= %s 0) (forall ((%s %s)) (not (select (select %s %s) %s))))", ml.S, q, c.Reg.SortOf(mt.Key()), c.Arr(st, dfam, dsort).S, a.S, q))
+			}
+			return set(ml)
 		case *types.Basic:
 			return set(T(SInt, "(str.len %s)", a.S))
 		case *types.Chan:
@@ -758,6 +769,9 @@ func (c *Ctx) doBuiltin(st *State, fr *Frame, ins ssa.Instruction, b *ssa.Builti
 		return set(Tuple{})
 	case "close":
 		ch := c.toTerm(st, args[0])
+		if c.neverClosed(st, ch) {
+			c.emit(st, fr, ins, "access", "close never-closed", False, "close of a channel that is declared never closed", false)
+		}
 		cl := c.Arr(st, famChClosed, ArraySort(SInt, SBool))
 		c.Oblige(st, fr, ins, "nopanic", "nil-chan", Not(Eq(ch, IntLit(0))), "close of nil channel")
 		c.Oblige(st, fr, ins, "nopanic", "closed", Not(Select(cl, ch)), "close of closed channel")
@@ -943,9 +957,61 @@ func (c *Ctx) chanInvTerm(st *State, ci *ChanInv, o ownerInfo, msg Term, elem ty
 	return c.evalBool(env, ci.Clause.Expr)
 }
 
+// soleReceiver reports whether ch is the channel of a field annotated received_by(g) and the
+// function under verification runs on goroutine g. Others may only send on such a channel, so
+// what this goroutine knows about its fill level are lower bounds: before each of its own
+// operations the level is raised by an unknown amount. A receive elsewhere is flagged.
+func (c *Ctx) soleReceiver(st *State, fr *Frame, ins ssa.Instruction, ch Term, recv bool) bool {
+	o, ok := st.owners[ch.S]
+	if !ok {
+		if a, ok2 := st.aliases[ch.S]; ok2 {
+			o, ok = st.owners[a]
+		}
+	}
+	if !ok {
+		return false
+	}
+	fm := c.FieldAnnos[c.Reg.TypeKey(o.Struct)+"|"+o.Field]
+	if fm == nil || fm.ReceivedBy == "" {
+		return false
+	}
+	if c.cur == nil || c.cur.goroutine != fm.ReceivedBy {
+		if recv {
+			c.emit(st, fr, ins, "access", o.Field+" receiver", False, fmt.Sprintf("receive from %s.%s outside its receiving goroutine %s", typeName(o.Struct), o.Field, fm.ReceivedBy), false)
+		}
+		return false
+	}
+	ln := c.Arr(st, famChLen, ArraySort(SInt, SInt))
+	nl := c.FreshConst(st, "chlen", SInt)
+	st.Assume(T(SBool, "(>= %s %s)", nl.S, Select(ln, ch).S))
+	c.SetArr(st, famChLen, Store(ln, ch, nl))
+	return true
+}
+
+// neverClosed: is ch the channel of a field annotated `neverclosed`? Then it is open.
+func (c *Ctx) neverClosed(st *State, ch Term) bool {
+	o, ok := st.owners[ch.S]
+	if !ok {
+		if a, ok2 := st.aliases[ch.S]; ok2 {
+			o, ok = st.owners[a]
+		}
+	}
+	if !ok {
+		return false
+	}
+	fm := c.FieldAnnos[c.Reg.TypeKey(o.Struct)+"|"+o.Field]
+	if fm == nil || !fm.NeverClosed {
+		return false
+	}
+	st.Assume(Not(Select(c.Arr(st, famChClosed, ArraySort(SInt, SBool)), ch)))
+	return true
+}
+
 func (c *Ctx) doSend(st *State, fr *Frame, x *ssa.Send) []cont {
 	ch := c.term(fr, x.Chan, st)
+	c.soleReceiver(st, fr, x, ch, false)
 	st.lastSent[ch.S] = c.term(fr, x.X, st)
+	c.SetArr(st, "SentNow", Store(c.Arr(st, "SentNow", ArraySort(SInt, SBool)), ch, True))
 	if ci, o, ok := c.chanInvFor(st, ch); ok {
 		if t, err := c.chanInvTerm(st, ci, o, st.lastSent[ch.S], x.X.Type(), true); err == nil {
 			c.Oblige(st, fr, x, "chaninv", o.Field, t, "message sent on "+o.Field+" satisfies the channel's message invariant: "+ci.Clause.Text)
@@ -959,6 +1025,7 @@ func (c *Ctx) doSend(st *State, fr *Frame, x *ssa.Send) []cont {
 
 // sendEffects: obligations and state change of a send that is known to proceed.
 func (c *Ctx) sendEffects(st *State, fr *Frame, ins ssa.Instruction, ch Term, blocking bool) {
+	c.neverClosed(st, ch)
 	cl := c.Arr(st, famChClosed, ArraySort(SInt, SBool))
 	ln := c.Arr(st, famChLen, ArraySort(SInt, SInt))
 	cp := c.Arr(st, famChCap, ArraySort(SInt, SInt))
@@ -978,6 +1045,7 @@ func (c *Ctx) sendEffects(st *State, fr *Frame, ins ssa.Instruction, ch Term, bl
 func (c *Ctx) doRecv(st *State, fr *Frame, x *ssa.UnOp) []cont {
 	ch := c.term(fr, x.X, st)
 	el := x.X.Type().Underlying().(*types.Chan).Elem()
+	c.soleReceiver(st, fr, x, ch, true)
 	v, ok := c.recvEffects(st, ch, el)
 	c.assumeChanInv(st, ch, v, ok, el)
 	if x.CommaOk {
@@ -997,6 +1065,7 @@ func (c *Ctx) recvEffects(st *State, ch Term, el types.Type) (Term, Term) {
 		st.Assume(Not(ok))
 		return v, ok
 	}
+	c.neverClosed(st, ch)
 	cl := c.Arr(st, famChClosed, ArraySort(SInt, SBool))
 	ln := c.Arr(st, famChLen, ArraySort(SInt, SInt))
 	st.Assume(Implies(Not(ok), And(Select(cl, ch), Eq(v, c.Reg.Zero(el)))))
@@ -1039,14 +1108,26 @@ func (c *Ctx) doSelect(st *State, fr *Frame, x *ssa.Select) []cont {
 			s, f = st.Clone(), fr.clone()
 		}
 		if i == n {
-			// default arm
+			// default arm: no case was ready. For a channel whose only receiver is this goroutine
+			// that is a fact about its (lower-bounded) fill level: it is empty.
+			for _, ss := range x.States {
+				if ss.Dir != types.RecvOnly {
+					continue
+				}
+				ch := c.term(f, ss.Chan, s)
+				if c.soleReceiver(s, f, x, ch, false) {
+					s.Assume(Eq(Select(c.Arr(s, famChLen, ArraySort(SInt, SInt)), ch), IntLit(0)))
+				}
+			}
 			mk(s, f, -1, False, nil)
 			continue
 		}
 		ss := x.States[i]
 		ch := c.term(f, ss.Chan, s)
+		c.soleReceiver(s, f, x, ch, ss.Dir == types.RecvOnly)
 		if ss.Dir == types.SendOnly {
 			s.lastSent[ch.S] = c.term(f, ss.Send, s)
+			c.SetArr(s, "SentNow", Store(c.Arr(s, "SentNow", ArraySort(SInt, SBool)), ch, True))
 			if ci, o, ok := c.chanInvFor(s, ch); ok {
 				if t, err := c.chanInvTerm(s, ci, o, s.lastSent[ch.S], ss.Send.Type(), true); err == nil {
 					c.Oblige(s, f, x, "chaninv", o.Field, t, "message sent on "+o.Field+" satisfies the channel's message invariant: "+ci.Clause.Text)
@@ -1184,6 +1265,35 @@ func (c *Ctx) checkMapAccess(st *State, fr *Frame, ins ssa.Instruction, mv ssa.V
 	stT := deref(fa.X.Type())
 	si := c.Reg.StructInfo(stT)
 	fm := c.FieldAnnos[c.Reg.TypeKey(stT)+"|"+si.st.Field(fa.Field).Name()]
+	if fm != nil && fm.Frozen {
+		if write {
+			if base, ok := fr.regs[fa.X].(Term); ok && !c.isFreshObject(st, base) {
+				pub := Select(c.Arr(st, "Published", ArraySort(SInt, SBool)), base)
+				c.Oblige(st, fr, ins, "access", si.st.Field(fa.Field).Name()+" frozen", Not(pub), fmt.Sprintf("the contents of %s.%s are written only before the object is shared", typeName(stT), si.st.Field(fa.Field).Name()))
+			}
+		}
+		return
+	}
+	if fm != nil && fm.Contents != "" {
+		if c.cur.contract != nil && c.cur.contract.Opts["init"] != "" {
+			return
+		}
+		if c.cur.contract != nil && !write && c.cur.contract.Opts["reads-published"] != "" && strings.Contains(" "+c.cur.contract.Opts["reads-published"]+" ", " "+si.st.Field(fa.Field).Name()+" ") {
+			return // declared: the contents are no longer written when this function runs
+		}
+		base, ok := fr.regs[fa.X].(Term)
+		if !ok || c.isFreshObject(st, base) {
+			return
+		}
+		lockT := c.lockOf(st, stT, base, fm.Contents)
+		h := c.Arr(st, famHeld, ArraySort(SInt, SBool))
+		what := "read"
+		if write {
+			what = "write"
+		}
+		c.Oblige(st, fr, ins, "access", si.st.Field(fa.Field).Name()+" contents", Select(h, lockT), fmt.Sprintf("%s of the contents of %s.%s requires %s to be held", what, typeName(stT), si.st.Field(fa.Field).Name(), fm.Contents))
+		return
+	}
 	if fm == nil || fm.Mode != "guarded_by" || !fm.Deep {
 		return
 	}
@@ -1239,6 +1349,17 @@ func (c *Ctx) havocGuardedOf(st *State, obj Term, ptrT types.Type, lockField str
 	}
 	for i := 0; i < sty.NumFields(); i++ {
 		fm := c.FieldAnnos[c.Reg.TypeKey(stT)+"|"+sty.Field(i).Name()]
+		if fm != nil && fm.Contents != "" && (lockField == "" || fm.Contents == lockField) {
+			// the contents of every map of this type (the field's map and the maps nested in it)
+			// may have been changed by the other goroutines that use the lock
+			if mt, ok := sty.Field(i).Type().Underlying().(*types.Map); ok {
+				dfam, _ := c.famMapDom(mt)
+				vfam, _ := c.famMapVal(mt)
+				c.HavocFam(st, dfam)
+				c.HavocFam(st, vfam)
+				c.HavocFam(st, famMapLen)
+			}
+		}
 		if fm == nil || fm.Mode != "guarded_by" {
 			continue
 		}
